@@ -100,10 +100,17 @@ func c09(c *ctx) {
 				case "key":
 					q.Key = "len23"
 				}
-				for _, api := range []string{"Upgrader", "HTTPUpgrader", "Upgrade", "UpgradeHTTP"} {
-					cf := plain
-					cf.ExtraHeader = api == "Upgrader" || api == "HTTPUpgrader"
-					emit(fmt.Sprintf("line/%s/%s/%s/%s", api, m, v, broken), api, q, cf)
+				forms := 1
+				if v == "garbage" {
+					forms = len(garbageVersions)
+				}
+				for vf := 0; vf < forms; vf++ {
+					q.VerForm = vf
+					for _, api := range []string{"Upgrader", "HTTPUpgrader", "Upgrade", "UpgradeHTTP"} {
+						cf := plain
+						cf.ExtraHeader = api == "Upgrader" || api == "HTTPUpgrader"
+						emit(fmt.Sprintf("line/%s/%s/%s/%s/%d", api, m, v, broken, vf), api, q, cf)
+					}
 				}
 			}
 		}
@@ -121,6 +128,26 @@ func c09(c *ctx) {
 					cf.Accept, cf.HasSelector = ac, hasSel
 					for _, api := range apis {
 						emit(fmt.Sprintf("proto/%s/%d/%d/%v/%d", api, pi, ai, hasSel, r), api, q, cf)
+					}
+				}
+			}
+		}
+	}
+	// a subprotocol header that breaks the token-list grammar before any acceptable token
+	for bi, bad := range []string{"soap; chat", "; chat", "@, chat", "\"chat", "(chat)", "=chat, chat", "soap;"} {
+		for _, withExt := range []bool{false, true} {
+			for _, mode := range []string{"none", "select", "negotiate"} {
+				for _, hasSel := range []bool{true, false} {
+					q := base
+					q.ProtoBad = bad
+					if withExt {
+						q.Exts = []string{"x-a"}
+					}
+					cf := plain
+					cf.Accept, cf.HasSelector = []string{"chat"}, hasSel
+					cf.ExtAccept, cf.ExtMode = []string{"x-a"}, mode
+					for _, api := range apis {
+						emit(fmt.Sprintf("protobad/%s/%d/%v/%s/%v", api, bi, withExt, mode, hasSel), api, q, cf)
 					}
 				}
 			}
